@@ -44,6 +44,15 @@ inductive SlotOk (S : Schema) : FieldD → Val → Prop
   | mapM (f : FieldD) (c : Nat) (ks vs : List Val) : MapFieldM f c → ks.length = vs.length →
       (∀ x ∈ ks, scalarOk f.mapK x = true) → MsgsOk S c vs → KeysDistinct ks →
       SlotOk S f (.dict ks vs)
+  -- repeated Timestamp / Duration fields: a list of in-range datetimes / timedeltas
+  | tss (f : FieldD) (xs : List Val) : TimesField f false → (∀ x ∈ xs, timeValOk false x = true) →
+      SlotOk S f (.list xs)
+  | durs (f : FieldD) (xs : List Val) : TimesField f true → (∀ x ∈ xs, timeValOk true x = true) →
+      SlotOk S f (.list xs)
+  -- maps with Timestamp (`isDur = false`) / Duration (`isDur = true`) values; keys as in `mapS`
+  | mapT (f : FieldD) (isDur : Bool) (ks vs : List Val) : MapFieldT f isDur → ks.length = vs.length →
+      (∀ x ∈ ks, scalarOk f.mapK x = true) → (∀ x ∈ vs, timeValOk isDur x = true) → KeysDistinct ks →
+      SlotOk S f (.dict ks vs)
 /-- a well-typed, reachable message instance -/
 inductive MsgOk (S : Schema) : Val → Prop
   | mk (c : Nat) (d : MsgD) (sl : List Val) (ow : Bool) (unk : Bytes) (cur : List (Option Nat)) :
